@@ -123,6 +123,7 @@ func main() {
 
 	outputs := map[string]string{}
 	outputs["Consts.lean"] = genConsts(g)
+	outputs["MappingTables.lean"] = genMappingTables(g)
 
 	if len(g.errs) > 0 {
 		sort.Strings(g.errs)
